@@ -85,7 +85,7 @@ CALLS_PER_NODE = 4000  # python-level call budget per distinct node of F (fixed 
                        # the largest legitimate value in the grid is 865, prenex of an Iff chain)
 CALLS_PER_NODE_DEEP = 1500   # the same budget on the deep chains (stops quadratic work early)
 TEXT_PER_NODE = 150    # characters of daggified SMT-LIB text per distinct node
-MEM_LIMIT = 6 << 30    # address-space limit of a worker: runaway string building -> MemoryError
+MEM_LIMIT = 3 << 30    # address-space limit of a worker: runaway string building -> MemoryError
 EVENTS_PER_NODE = 200  # monitored-event budget per distinct node of F
 
 CLEAN = ("NoLogicAvailableError", "UnsupportedOperatorError", "NotImplementedError",
@@ -257,7 +257,7 @@ class Built(object):
     pass
 
 
-def build(opname, family, n):
+def build(opname, family, n, calls_limit=None):
     """fresh environment (pushed), family term, its closure; counts the construction work"""
     env = Environment()
     push_env(env)
@@ -267,14 +267,20 @@ def build(opname, family, n):
     b = Built()
     b.env, b.L, b.sort = env, L, sort
     MON.reset()
-    f = L.leaf(sort, 0)
-    mid = None
-    for k in range(n):
-        f = step(L, f, k)
-        if k == n // 2:
-            mid = f
-    b.f, b.mid = f, mid
-    b.F = L.close(sort, f)
+    if calls_limit:
+        MON.start_calls(calls_limit)
+    try:
+        f = L.leaf(sort, 0)
+        mid = None
+        for k in range(n):
+            f = step(L, f, k)
+            if k == n // 2:
+                mid = f
+        b.f, b.mid = f, mid
+        b.F = L.close(sort, f)
+    finally:
+        if calls_limit:
+            MON.stop_calls()
     b.build_counts = MON.snapshot()
     b.N = dag_nodes(b.F)
     return b
@@ -338,6 +344,7 @@ def measure(fn, N, profile, per_node=None):
     """run fn under the monitor; returns (counts, exception-or-None, traceback-tail)"""
     MON.reset()
     MON.limit_events = EVENTS_PER_NODE * N + 10000
+    MON.limit_str = TEXT_PER_NODE * N + 1000
     exc = tb = None
     try:
         if profile:
@@ -357,7 +364,7 @@ def measure(fn, N, profile, per_node=None):
     except Exception as e:            # noqa: BLE001 - every failure of the operation is an outcome
         exc = e
         tb = _tail(e)
-    MON.limit_events = None
+    MON.limit_events = MON.limit_str = None
     return MON.snapshot(), exc, tb
 
 
@@ -381,7 +388,8 @@ def case_ops(opname, family, n, ops, res, part, profile, deep):
 
     def fresh():
         try:
-            return build(opname, family, n), None, None
+            lim = ((CALLS_PER_NODE_DEEP if deep else CALLS_PER_NODE) * (n + 10) + 100000) if profile else None
+            return build(opname, family, n, lim), None, None
         except BudgetExceeded as e:
             return None, e, None
         except BaseException as e:      # noqa: BLE001
